@@ -364,9 +364,62 @@ class G2:
         if r.random() < 0.25:
             steps.append(["Where", f"lambda e: {self.boolean(env, 1)}"])
             self.uncond = False
-        form = r.choice(["single", "tuple", "tuple", "dict", "dict", "rows", "rows", "list"])
+        form = r.choice(["single", "tuple", "tuple", "dict", "dict", "rows", "rows", "list", "two_step", "two_step"])
         cols = None
-        if form == "rows":
+        if form == "two_step":
+            # plumbing: a first Select collects sequences and numbers in a tuple or dict, an optional Where filters on them,
+            # a second Select builds the columns from the parts (every part may be used several times or not at all)
+            n = r.choice([2, 2, 3])
+            parts = []
+            for _ in range(n):
+                if r.random() < 0.65:
+                    sq, et = self.seq_obj(env, max(0, d - 1))
+                    parts.append(("seq", sq, et))
+                else:
+                    parts.append(("num", self.num(env, max(0, d - 1)), None))
+            as_dict = r.random() < 0.4
+            keys = [f"k{i}" for i in range(n)]
+            if as_dict:
+                steps.append(["Select", "lambda e: {" + ", ".join(f"'{k}': {p[1]}" for k, p in zip(keys, parts)) + "}"])
+            else:
+                steps.append(["Select", f"lambda e: ({', '.join(p[1] for p in parts)})"])
+            t = self.var("t")
+            acc = (lambda i: f"{t}.{keys[i]}" if r.random() < 0.5 else f"{t}['{keys[i]}']") if as_dict else (lambda i: f"{t}[{i}]")
+            # evaluation is lazy: a part is computed where (and if) the second step uses it
+            for o in self.occ:
+                o["uncond"] = False
+
+            def use(i, depth):
+                kind, _, et = parts[i]
+                if kind == "num":
+                    return acc(i) if r.random() < 0.6 else f"({acc(i)} {r.choice(['+', '*', '-'])} {r.choice(FLOATS)})"
+                v = self.var("o")
+                oenv = {"e": False, "objs": [(v, et)], "nums": [], "ints": []}
+                kk = qgen.weighted_choice(r, [("vec", 5), ("count", 2), ("agg", 2), ("first", 1), ("vec2", 1)])
+                if kk == "vec":
+                    return f"{acc(i)}.Select(lambda {v}: {self.num(oenv, depth)})"
+                if kk == "count":
+                    return f"{acc(i)}.Count()"
+                if kk == "agg":
+                    return f"{acc(i)}.Select(lambda {v}: {self.num(oenv, depth)}).{r.choice(['Sum', 'Max', 'Min'])}()"
+                if kk == "first":
+                    return f"{acc(i)}.First().{r.choice(qgen.DOUBLE_METHODS)}()"
+                return f"{acc(i)}.Select(lambda {v}: {self.seq_num(oenv, depth)})"
+
+            if r.random() < 0.3:
+                i = r.randrange(n)
+                cond = f"{acc(i)} > {r.choice(FLOATS)}" if parts[i][0] == "num" else f"{acc(i)}.Count() {r.choice(['> 0', '> 1', '== 0'])}"
+                steps.append(["Where", f"lambda {t}: {cond}"])
+                t = self.var("t")
+            m = r.choice([1, 2, 3])
+            cols2 = [use(r.randrange(n), max(0, d - 1)) for _ in range(m)]
+            if m == 1:
+                steps.append(["Select", f"lambda {t}: {cols2[0]}"])
+            elif r.random() < 0.5:
+                steps.append(["Select", f"lambda {t}: ({', '.join(cols2)})"])
+            else:
+                steps.append(["Select", f"lambda {t}: " + "{" + ", ".join(f"'c{i}': {c}" for i, c in enumerate(cols2)) + "}"])
+        elif form == "rows":
             s, et = self.seq_obj(env, d - 1)
             steps.append(["SelectMany", f"lambda e: {s}"])
             self.uncond = False
